@@ -36,7 +36,7 @@ def program_for(s, pos, raw_ws=False):
 class C04(Check):
     id = "C04"
     level = "exploration"
-    rule = ("(a) every string of length <= n over the 11-character alphabet {\" \\ space tab LF CR n r t é a} "
+    rule = ("(a) every string of length <= n over the 14-character alphabet {\" \\ space tab LF CR n r t é a NBSP VT U+1F600} "
             "as a source literal in 6 positions (print argument, list element, map key, exported member and function "
             "of an imported module, never-executed code, function body); strings ending in a backslash are inexpressible "
             "as a literal and are counted, not run; raw (unescaped) tab/LF/CR spelling as a deviation; "
